@@ -204,7 +204,7 @@ func init() {
 				ids := gateGrid(ctx.Quick)
 				reps := 6
 				if !ctx.Quick {
-					reps = 6
+					reps = 60
 				}
 				for _, id := range ids {
 					for k := 0; k < reps; k++ {
@@ -214,7 +214,7 @@ func init() {
 				}
 				nf := 100
 				if !ctx.Quick {
-					nf = 200
+					nf = 4000
 				}
 				for i := 0; i < nf; i++ {
 					cs = append(cs, fw.Case{ID: fmt.Sprintf("filter/%d", i), Kind: "filter", P: map[string]any{"i": i}})
